@@ -81,34 +81,49 @@ class SendPacket(Contract):
         w = [e for e in S.trace if e.name == "transport.write"]
         if len(w) != 1:
             return False
-        out = w[0].args[0]
-        body = L(S.i.payload) + 1
-        n = L(out) - S.i.ms          # packet without MAC
-        lenfield = ((core.at(out, 0) * 256 + core.at(out, 1)) * 256 + core.at(out, 2)) * 256 + core.at(out, 3)
-        pad = core.at(out, 4)
-        return band(n % S.i.bs == 0, lenfield == n - 4, pad >= 4, pad <= S.i.bs + 3, n == 5 + body + pad,
-                    core.at(out, 5) == S.i.mtype, veq(out[6: 6 + L(S.i.payload)], S.i.payload),
-                    veq(out[n:], S.i.mac), S.new.t.outgoingPacketSequence == 4)
+        return band(layout(w[0].args[0], S.i.bs, S.i.ms, S.i.mtype, S.i.payload, S.i.mac), S.new.t.outgoingPacketSequence == 4)
 
     ensures = dict(packet_layout_and_padding=_frame)
     canaries = [("if lenPad < 4:", "if lenPad < 3:", "packet_layout_and_padding"),
                 ("totalSize + lenPad - 4", "totalSize + lenPad", "packet_layout_and_padding")]
 
 
+def layout(out, bs, ms, mtype, payload, mac):
+    """the packet format sendPacket is proved to produce (SendPacket.ensures); getPacket is verified against it"""
+    body = L(payload) + 1
+    n = L(out) - ms          # packet without MAC
+    lenfield = ((core.at(out, 0) * 256 + core.at(out, 1)) * 256 + core.at(out, 2)) * 256 + core.at(out, 3)
+    pad = core.at(out, 4)
+    return band(n % bs == 0, lenfield == n - 4, pad >= 4, pad <= bs + 3, n == 5 + body + pad,
+                core.at(out, 5) == mtype, veq(out[6: 6 + L(payload)], payload), core.pointwise_eq(out, payload, 6),
+                veq(out[n:], mac))
+
+
+def ref_frame(bs, ms, mtype, payload, mac):
+    """reference framer for concrete runs (RFC 4253 section 6)"""
+    pad = bs - ((5 + 1 + len(payload)) % bs)
+    if pad < 4:
+        pad += bs
+    return struct.pack("!LB", 1 + 1 + len(payload) + pad, pad) + bytes([mtype]) + payload + b"\x07" * pad + mac
+
+
 class RoundTrip(Contract):
-    """getPacket on what sendPacket wrote (followed by `rest`) returns the payload and keeps `rest`."""
+    """getPacket on a packet of the proved sendPacket layout (followed by `rest`) returns the payload and keeps `rest`.
+    Modular: the sender is represented by its contract (layout), not its body."""
     prop = "C35"
     module = M
     function = "SSHTransportBase.getPacket"
-    also = ["SSHTransportBase.sendPacket"]
     differential = False
     calls = enc_calls()
     inputs = dict(bs=OneOf(8, 16), ms=OneOf(0, 20), payload=Bytes(alphabet=b"p\x00", small_len=3), rest=Bytes(alphabet=b"r", small_len=2),
-                  mac=Bytes(alphabet=b"m", small_len=0), scenario=OneOf("whole", "prefix", "bad-mac"), cut=Int(lo=0, small=[0, 3, 9]))
+                  mac=Bytes(alphabet=b"m", small_len=0), wire=Bytes(small_len=0), scenario=OneOf("whole", "prefix", "bad-mac"),
+                  cut=Int(lo=0, small=[0, 3, 9]))
     timeout_quick = 40
+    pc_slices = True  # slice bounds simplified under the path condition (buffer long enough on this path)
 
     def requires(self, i):
-        return band(L(i.payload) < 2 ** 16, L(i.mac) == i.ms)
+        return band(L(i.payload) < 2 ** 16, L(i.mac) == i.ms, layout(i.wire, i.bs, i.ms, 94, i.payload, i.mac),
+                    True if i.scenario != "bad-mac" else bnot(veq(i.mac, b"X" * 20)))
 
     def bounded_inputs(self, tier):
         for bs in (8, 16):
@@ -116,30 +131,27 @@ class RoundTrip(Contract):
                 for n in (0, 1, 7, 11):
                     for sc in ("whole", "prefix", "bad-mac"):
                         for cut in (0, 3, 9, 17):
-                            yield dict(bs=bs, ms=ms, payload=b"p" * n, rest=b"rr", mac=b"m" * ms, scenario=sc, cut=cut)
+                            mac = b"m" * ms
+                            yield dict(bs=bs, ms=ms, payload=b"p" * n, rest=b"rr", mac=mac, scenario=sc, cut=cut,
+                                       wire=ref_frame(bs, ms, 94, b"p" * n, mac))
 
     def setup(self, i):
-        snd = mkt(self, i.bs, i.ms)
         rcv = mkt(self, i.bs, i.ms)
-
-        def drive(call):
-            call(snd, "sendPacket", 94, i.payload)
-            wire = [e for e in ctx().trace if e.name == "transport.write"][0].args[0]
-            c = ctx()
-            c.ghost["wire"] = wire
-            if i.scenario == "whole":
-                rcv.buf = wire + i.rest
-            elif i.scenario == "prefix":
-                if not (i.cut < L(wire)):
-                    raise core.Infeasible()
-                rcv.buf = wire[: i.cut]
-            else:
-                if i.ms == 0:
-                    raise core.Infeasible()
-                n = L(wire) - i.ms
-                rcv.buf = wire[:n] + b"X" * i.ms + i.rest
-            return call(rcv, "getPacket")
-        return dict(drive=drive, objs=dict(rcv=rcv), ghost=dict(mac=i.mac, wire=None))
+        wire = i.wire
+        n = L(wire) - i.ms
+        if i.scenario == "whole":
+            buf = wire + i.rest
+        elif i.scenario == "prefix":
+            if not (i.cut < L(wire)):
+                raise core.Infeasible()
+            buf = wire[: i.cut]
+        else:
+            if i.ms == 0:
+                raise core.Infeasible()
+            buf = wire[:n] + b"X" * i.ms + i.rest
+        rcv.buf = buf if is_sym(buf) else bytes(buf)
+        # the MAC the sender computed for this packet (enc.makeMAC contract): verify accepts exactly it
+        return dict(self=rcv, args=[], objs=dict(rcv=rcv), ghost=dict(mac=i.mac, mac_for=(3, wire[:n]), wire=wire))
 
     raises = ()
 
@@ -147,8 +159,8 @@ class RoundTrip(Contract):
         rcv, wire = S.new.rcv, S.ghost["wire"]
         disc = [e for e in S.trace if e.name == "sendDisconnect"]
         if S.i.scenario == "whole":
-            return band(veq(S.result, bytes([94]) + S.i.payload if not is_sym(S.i.payload) else b"\x5e" + S.i.payload),
-                        veq(rcv.buf, S.i.rest), len(disc) == 0, rcv.incomingPacketSequence == 4)
+            return band(veq(S.result, b"\x5e" + S.i.payload), veq(rcv.buf, S.i.rest), len(disc) == 0,
+                        rcv.incomingPacketSequence == 4)
         if S.i.scenario == "prefix":
             # more data needed: nothing returned, nothing consumed, no disconnect
             return band(S.result is None, veq(rcv.buf, wire[: S.i.cut]), len(disc) == 0, rcv.incomingPacketSequence == 3)
@@ -160,11 +172,32 @@ class RoundTrip(Contract):
                 ("if not self.currentEncryptions.verify(", "if False and not self.currentEncryptions.verify(", "decodes_what_was_sent")]
 
 
+def _whole(pick):
+    def clause(S):
+        rcv = S.new.rcv
+        disc = [e for e in S.trace if e.name == "sendDisconnect"]
+        if S.exc is not None or S.result is None:
+            return False
+        return pick(S, rcv, disc)
+    return clause
+
+
 class RoundTripWhole(RoundTrip):
     inputs = dict(RoundTrip.inputs, scenario=Const("whole"), cut=Const(0))
+    # the round-trip clause, one obligation per conjunct
+    ensures = dict(
+        decodes_what_was_sent_length=_whole(lambda S, rcv, disc: L(S.result) == 1 + L(S.i.payload)),
+        decodes_what_was_sent_type=_whole(lambda S, rcv, disc: core.at(S.result, 0) == 94),
+        decodes_what_was_sent_payload=_whole(lambda S, rcv, disc: core.pointwise_eq(S.result, S.i.payload, 1)),
+        decodes_what_was_sent_consumed=_whole(lambda S, rcv, disc: veq(rcv.buf, S.i.rest)),
+        decodes_what_was_sent_state=_whole(lambda S, rcv, disc: band(len(disc) == 0, rcv.incomingPacketSequence == 4)),
+    )
     canaries = RoundTrip.canaries[:1]
     budget_quick = 400
     timeout_quick = 60
+
+    def bounded_inputs(self, tier):
+        return (x for x in RoundTrip.bounded_inputs(self, tier) if x["scenario"] == "whole" and x["cut"] == 0)
 
 
 class RoundTripPrefix(RoundTrip):
@@ -172,6 +205,10 @@ class RoundTripPrefix(RoundTrip):
     canaries = []
     budget_quick = 400
     timeout_quick = 60
+
+    def bounded_inputs(self, tier):
+        return (dict(x, rest=b"") for x in RoundTrip.bounded_inputs(self, tier)
+                if x["scenario"] == "prefix" and x["cut"] < len(x["wire"]))
 
 
 class RoundTripBadMac(RoundTrip):
@@ -181,9 +218,7 @@ class RoundTripBadMac(RoundTrip):
     timeout_quick = 60
 
     def bounded_inputs(self, tier):
-        for inp in RoundTrip.bounded_inputs(self, tier):
-            if inp["scenario"] == "bad-mac" and inp["ms"] == 20:
-                yield inp
+        return (x for x in RoundTrip.bounded_inputs(self, tier) if x["scenario"] == "bad-mac" and x["ms"] == 20 and x["cut"] == 0)
 
 
 CONTRACTS = [SendPacket, RoundTripWhole, RoundTripPrefix, RoundTripBadMac]
